@@ -87,10 +87,9 @@ def run(prog, rep):
             continue
         if not f.q.startswith(ARCHIVE_NS):
             continue
-        pv = [p for p in f.params if p['n'] == 'value']
-        if not pv:
+        if not f.params or 't' not in f.params[-1]:
             continue
-        d = pv[0]['d']
+        d = f.params[-1]['d']          # the serialized value is the last parameter of every SerializeValue / SaveValue overload
         rep.touch(f)
         n_casts = 0
         for n in f.walk():
@@ -148,11 +147,13 @@ def run(prog, rep):
         for cn in f.walk():
             if cn['k'] != 'CXXConstructExpr' or cn['i'] > first_call:
                 continue
-            argn = [a.get('n') for x in cn.get('c', []) if x for a in f.walk(x) if a['k'] == 'DeclRefExpr' and a.get('dk') in ('Var', 'ParmVar', None)]
+            refs = [a for x in cn.get('c', []) if x for a in f.walk(x) if a['k'] == 'DeclRefExpr' and a.get('dk') in ('Var', 'ParmVar', None)]
+            rtypes = [f.type(a) for a in refs]
+            pds = set(p['d'] for p in f.params)
             if f.type(cn).endswith('SerializationContext'):
-                ctx_ok = ctx_ok or 'serializationOptions' in argn
-            elif 'context' in argn and (set(argn) & {'input', 'output'}):
-                arch_ok = True
+                ctx_ok = ctx_ok or any('SerializationOptions' in t for t in rtypes)
+            elif any(t.endswith('SerializationContext') for t in rtypes) and any(a.get('d') in pds and 'SerializationOptions' not in f.type(a) for a in refs):
+                arch_ok = True          # archive(<data parameter>, <context local>)
         if ok and ctx_ok and arch_ok:
             rep.ok('R1.2', site, sample={'entry': f.q, 'calls': names})
         else:
